@@ -1715,7 +1715,7 @@ def phases(kind: str, thorough: bool, scn: Optional[Dict[str, Any]] = None) -> L
         else:
             op = {"caps": [30, 130, 40], "budget": 200, "random": 0}
             line = {"caps": [30, 650, 30], "budget": 700, "random": 10}
-            opcode = {"caps": [30, 200, 15], "budget": 240, "random": 5}
+            opcode = {"caps": [30, 120, 10], "budget": 150, "random": 5}
         return [{"gran": "op", "bound": pb, "cap": 0, **op},
                 {"gran": "line", "bound": pb, "cap": 0, **line},
                 {"gran": "opcode", "bound": pb, "cap": 0, **opcode}]
@@ -1765,8 +1765,9 @@ def explore(ctx: Ctx) -> Exploration:
     timeout = 1500 if thorough else 240
     workers = max(1, min(12, (os.cpu_count() or 2) - 2))
     pool = ThreadPoolExecutor(max_workers=workers)
-    rank = lambda i: 0 if scns[i][1]["kind"] == "graph" else 1 if scns[i][1].get("lib") else 2
-    order = sorted(range(len(jobs)), key=lambda i: (rank(i), -i if rank(i) == 0 else i))
+    heavy = ["map", "with_options_over_dataset", "collections"]      # the longest single scenarios start first
+    rank = lambda i: (-1 if scns[i][1].get("node") in heavy else 0) if scns[i][1]["kind"] == "graph" else 1 if scns[i][1].get("lib") else 2
+    order = sorted(range(len(jobs)), key=lambda i: (rank(i), -i if rank(i) <= 0 else i))
     background = {i: pool.submit(run_runner, [jobs[i]], 3 * timeout) for i in order}
     try:
         return _explore(ctx, thorough, scns, jobs, background)
@@ -1814,7 +1815,7 @@ def _explore(ctx: Ctx, thorough: bool, scns, jobs, background) -> Exploration:
             lib_cov["executions"] += st["executions"]
             lib_cov["distinct_outcomes"] += len(outs)
             lib_cov["traced_files"] = sorted(set(lib_cov["traced_files"]) | set(outs[0]["outcome"]["traced"]))
-            for th in scn["threads"]:
+            for th in [scn.get("setup", [])] + scn["threads"]:
                 for opname, cnt in helper_calls(th).items():
                     lib_cov["helper_calls_in_programs"][opname] = lib_cov["helper_calls_in_programs"].get(opname, 0) + cnt
             for lv, cnt in st["by_level"].items():
